@@ -262,7 +262,9 @@ class Ctx:
 
     def evaluate(self, cases, tie="K", bin="hk"):
         """K step for a batch: impl, model, judge.  Returns list of (case, triple, answer)."""
-        triples = self.run_impl(cases, bin)
+        prep = getattr(self, "prepare", None)
+        sent = [prep(c) for c in cases] if prep else cases
+        triples = self.run_impl(sent, bin)
         answers = self.run_model(triples)
         self.ties[tie] = self.ties.get(tie, 0) + len(cases)
         return list(zip(cases, triples, answers))
@@ -303,10 +305,13 @@ class Ctx:
                 return case
         return None
 
-    def shrink(self, case, tie, bin="hk", rounds=40):
+    def shrink(self, case, tie, bin="hk", rounds=12):
         cur = case
+        if getattr(self, "shrunk", 0) >= 3:      # shrink the first few failures only
+            return cur
+        self.shrunk = getattr(self, "shrunk", 0) + 1
         for _ in range(rounds):
-            cands = [dict(cur, **{"in": v}) for v in shrink_json(cur["in"])][:300]
+            cands = [dict(cur, **{"in": v}) for v in shrink_json(cur["in"])][:80]
             if not cands:
                 break
             nxt = self._still_fails(cands, bin)
